@@ -64,8 +64,22 @@ func svRandomUp(rng *rand.Rand, nsh int) svUp {
 func svRun(tr *tracer.T, rng *rand.Rand, steps []map[string]any, nrand int) {
 	tr.Emit(map[string]any{"ev": "reset"})
 	views := []*cluster.VerifView{}
+	// local[n]: the Raft information of node n's own NodeHost (the shards it runs), re-read by the code on every Raft
+	// event (Cluster.Notify), membership event and state exchange
+	var localMu sync.Mutex
+	local := make([][]svUp, 3)
 	for i := 0; i < 3; i++ {
-		views = append(views, cluster.VerifNewView(func() cluster.Info { return cluster.Info{} }))
+		i := i
+		views = append(views, cluster.VerifNewView(func() cluster.Info {
+			localMu.Lock()
+			defer localMu.Unlock()
+			var l []dragonboat.ShardInfo
+			for _, u := range local[i] {
+				v := u.view()
+				l = append(l, dragonboat.ShardInfo{ShardID: v.ShardID, Replicas: v.Replicas, ConfigChangeIndex: v.ConfigChangeIndex, LeaderID: v.LeaderID, Term: v.Term})
+			}
+			return cluster.Info{ShardInfoList: l}
+		}))
 	}
 	shards := []uint64{1, 2, 3}
 	deliver := func(n int, ups []svUp) {
@@ -106,8 +120,32 @@ func svRun(tr *tracer.T, rng *rand.Rand, steps []map[string]any, nrand int) {
 		tr.Emit(map[string]any{"ev": "member", "node": n, "what": what, "id": id})
 		svObserve(tr, n, views[n-1], shards)
 	}
+	// the node's own NodeHost now runs another set of shards (tables started, stopped, deleted) with other Raft facts
+	setLocal := func(n int) {
+		ups := []svUp{}
+		for s := 1; s <= 3; s++ {
+			if rng.Intn(2) == 0 {
+				u := svRandomUp(rng, 3)
+				u.Shard = uint64(s)
+				ups = append(ups, u)
+			}
+		}
+		localMu.Lock()
+		local[n-1] = ups
+		localMu.Unlock()
+		tr.Emit(map[string]any{"ev": "local", "node": n, "ups": ups})
+	}
+	notify := func(n int) {
+		views[n-1].VerifNotify() // the real Cluster.Notify
+		tr.Emit(map[string]any{"ev": "notify", "node": n})
+		svObserve(tr, n, views[n-1], shards)
+	}
 	for i := 0; i < nrand; i++ {
-		switch r := rng.Intn(12); {
+		switch r := rng.Intn(16); {
+		case r >= 14:
+			setLocal(1 + rng.Intn(3))
+		case r >= 12:
+			notify(1 + rng.Intn(3))
 		case r >= 10:
 			member(1 + rng.Intn(3))
 		case r < 6:
